@@ -238,12 +238,10 @@ pub fn ref_encode(sig: Option<&[u8]>, seq: u64, pairs: &[(&[u8], &[u8])]) -> Buf
         body.put_str(s);
     }
     body.put_u64(seq);
-    let mut i = 0;
-    while i < pairs.len() {
+    rep6!(|i: usize| if i < pairs.len() {
         body.put_str(pairs[i].0);
         body.put(pairs[i].1);
-        i += 1;
-    }
+    });
     let mut out = Buf64::new();
     if body.n < 56 {
         out.put1(0xc0 + body.n as u8);
